@@ -3,6 +3,8 @@ package main
 import (
 	"flag"
 	"fmt"
+	"go/ast"
+	"go/types"
 	"os"
 	"regexp"
 	"runtime"
@@ -26,6 +28,10 @@ func main() {
 		cmdCheck(os.Args[2:])
 	case "infer":
 		cmdInfer(os.Args[2:])
+	case "replay":
+		cmdReplay(os.Args[2:])
+	case "loops":
+		cmdLoops(os.Args[2:])
 	default:
 		fmt.Fprintln(os.Stderr, "unknown command", os.Args[1])
 		os.Exit(2)
@@ -120,6 +126,11 @@ func cmdSweep(args []string) {
 		for _, u := range vc.unsupported {
 			unsupp[u]++
 		}
+		for _, n := range vc.notes {
+			if strings.Contains(n, "not bound") {
+				fmt.Printf("NOTE %s: %s\n", e.fname(vc.fn), n)
+			}
+		}
 		for _, ob := range vc.obls {
 			tot++
 			k := byKind[ob.Kind]
@@ -191,3 +202,53 @@ func solveAll(vcs []*VC, tmo int, esc bool) {
 	wg.Wait()
 }
 
+
+// cmdLoops lists the loop keys (as used in `//@ loop "<key>"`) of the functions matching a regexp.
+func cmdLoops(args []string) {
+	fs := flag.NewFlagSet("loops", flag.ExitOnError)
+	repo := fs.String("repo", "/repo", "repository")
+	fnre := fs.String("fn", "", "function regexp")
+	fs.Parse(args)
+	e, err := loadEngine(*repo)
+	if err != nil {
+		fmt.Fprintln(os.Stderr, err)
+		os.Exit(2)
+	}
+	re := regexp.MustCompile(*fnre)
+	for _, f := range e.order {
+		if !re.MatchString(e.fname(f)) || f.Syntax() == nil {
+			continue
+		}
+		cnt := map[string]int{}
+		first := true
+		ast.Inspect(f.Syntax(), func(n ast.Node) bool {
+			t := ""
+			switch l := n.(type) {
+			case *ast.ForStmt:
+				t = "for"
+				if l.Cond != nil {
+					t = types.ExprString(l.Cond)
+				}
+			case *ast.RangeStmt:
+				t = "range " + types.ExprString(l.X)
+			case *ast.FuncLit:
+				if n != f.Syntax() {
+					return false
+				}
+			}
+			if t != "" {
+				if first {
+					fmt.Printf("//@ func %s\n", e.fname(f))
+					first = false
+				}
+				cnt[t]++
+				if cnt[t] > 1 {
+					fmt.Printf("//@   loop %q #%d:\n", t, cnt[t])
+				} else {
+					fmt.Printf("//@   loop %q:\n", t)
+				}
+			}
+			return true
+		})
+	}
+}
